@@ -237,3 +237,76 @@ func TestC13_Orders(t *testing.T) {
 		}
 	})
 }
+
+// QuietCase: strings pushed through every entry point while file descriptors 1 and 2 are captured.
+type QuietCase struct {
+	Strings []StrCase `json:"strings"`
+}
+
+func init() { registerReplay("c13-quiet", checkC13Quiet) }
+
+func checkC13Quiet(c QuietCase) Outcome {
+	restore, err := captureFDs()
+	if err != nil {
+		return fail("C13/harness", "cannot capture stdout/stderr: %v", err)
+	}
+	var list []string
+	for _, sc := range c.Strings {
+		s := sc.S()
+		list = append(list, s)
+		Validate([]string{s})
+		Extract(s)
+		Satisfies(s, []string{"MIT", "GPL-2.0+"})
+		Satisfies("MIT OR GPL-3.0-only", []string{s})
+	}
+	Validate(list)
+	Satisfies("MIT", list)
+	Validate(nil)
+	Satisfies("MIT", nil)
+	out := restore()
+	if out != "" {
+		return fail("C13/output/"+firstN(strings.TrimSpace(out), 60), "the library wrote %d bytes to standard output / standard error while handling %q: %q", len(out), list, firstN(out, 400))
+	}
+	return pass()
+}
+
+// TestC13_Quiet: nothing is ever written to file descriptors 1 and 2, whatever the input — the
+// broad input mix of C03/C04 (token sequences incl. open spellings, edits, raw bytes, hostile
+// constants, trees, a few long inputs) under the fd-level capture.
+func TestC13_Quiet(t *testing.T) {
+	rec := NewRecorder("C13", "quiet", "batches of 8 strings from the C03/C04 input mix (token sequences incl. open spellings, single edits of valid expressions, raw bytes, hostile constants, valid trees, unknown ids up to 90 bytes, occasional 2-20 KB inputs) through all three entry points in every argument position, plus nil/empty lists, with file descriptors 1 and 2 redirected to a file; oracle: zero bytes arrive; non-trivial = the batch contains an invalid string; distinct by batch")
+	defer rec.Finish(t)
+	tb := Tbl()
+	rec.Rapid(t, func(rt *rapid.T) {
+		var c QuietCase
+		invalid := false
+		for i := 0; i < 8; i++ {
+			label := fmt.Sprintf("q%d", i)
+			var s string
+			switch rapid.IntRange(0, 9).Draw(rt, label+"Kind") {
+			case 0:
+				s = rapid.SampledFrom(hostile).Draw(rt, label+"H")
+			case 1:
+				s = tb.DrawUnknown(rt, label) + rapid.SampledFrom([]string{"", "+", "-only", "-or-later", "-only-only", " WITH x", ":"}).Draw(rt, label+"Suf")
+			case 2:
+				fam := rapid.SampledFrom([]string{"and-chain", "nesting", "open-parens", "plus-run", "junk-bytes", "long-id", "spaces"}).Draw(rt, label+"Fam")
+				s, _ = buildSize(SizeCase{Family: fam, N: rapid.IntRange(200, 2000).Draw(rt, label+"N")})
+			default:
+				s = drawEntry(rt, label, false).S.S()
+			}
+			if v, _ := Valid1(s); !v {
+				invalid = true
+			}
+			c.Strings = append(c.Strings, mkStr(s))
+		}
+		out := checkC13Quiet(c)
+		var texts []string
+		for _, sc := range c.Strings {
+			texts = append(texts, firstN(sc.Text, 60))
+		}
+		rec.Case(invalid, fmt.Sprint(texts), texts, "batch")
+		if !out.OK {
+			rec.Fail(rt, "c13-quiet", out.Key, out.Msg, c)
+		}
+	})
+}
